@@ -20,17 +20,16 @@
 //	                                  skipped and counted (`near-edge`).  All other conjuncts of the source's test are
 //	                                  comparisons of input values and do not round.
 //
-// Bounds: Contour.Bounds returns Width = 1+maxX−minX.  For coordinates of large magnitude the 1 is absorbed by rounding
-// and the far vertex is then NOT In the bounds (half-open).  Polygon.Bounds additionally inherits Rect.Union's
-// one-ulp-short far edge.  Generated cases of this class are counted (`cbounds-short`, `pbounds-short`), the strict op
-// words `pb64s` / `pb32s` (corpus lines of the known finding) fail on them.
+// Bounds: the contour level is judged strictly on every case (a vertex not In its contour's Bounds() is a FAIL; the
+// absorbed 1 of Width = 1+maxX−minX at large magnitudes was repaired in /repo, corpus lines of that defect are kept).
+// Polygon.Bounds inherits Rect.Union's one-ulp-short far edge (known finding): generated cases where a vertex is not In
+// Polygon.Bounds() are counted (`pbounds-short`), only the strict op words `pb64s` / `pb32s` fail on them.
 package main
 
 import (
 	"fmt"
 	"math"
 	"math/big"
-	"os"
 	"strconv"
 	"strings"
 
@@ -39,9 +38,10 @@ import (
 	"verifharness/hx"
 )
 
-// contourBoundsStrict makes every generated `pb` case judge the contour level strictly (for experiments with a repaired
-// Contour.Bounds: C18_CONTOUR_BOUNDS_STRICT=1); by default only the strict op words do.
-var contourBoundsStrict = os.Getenv("C18_CONTOUR_BOUNDS_STRICT") == "1"
+// contourBoundsStrict: every `pb` case judges the contour level strictly — Contour.Bounds was repaired in /repo
+// (commit c8f36a0: the size is widened when the 1 of 1+max-min is absorbed by rounding); only the polygon level stays
+// counted, because Polygon.Bounds inherits Rect.Union's one-ulp-short far edge (known finding).
+const contourBoundsStrict = true
 
 func parseBits[T fl](w string) (T, bool) {
 	var z T
